@@ -2,6 +2,8 @@
 //! Private names used: `ClosestNodes { target, nodes }`.
 //! Stand-ins: `vcoll::HashSet` (take_until_secure / subnets_count only).
 use super::*;
+#[allow(unused_imports)]
+use crate::verif_env::k as kani;
 use crate::verif_env::clock;
 use std::net::SocketAddrV4;
 
